@@ -534,10 +534,11 @@ Lemma scan_number_eq : forall v s start c k,
 Proof.
   intros v s start c k. unfold scan_number. cbv zeta.
   destruct (c_rest (skip_while is_digit (c_rest c) (c_pos c))) as [|h t]; [reflexivity|].
-  destruct (Z.eqb_spec h 46) as [->|Hn]; [reflexivity|].
-  destruct h as [|q|q]; try reflexivity.
-  repeat (destruct q as [q|q|]; try reflexivity).
-  exfalso. apply Hn. reflexivity.
+  first [ reflexivity
+        | destruct (Z.eqb_spec h 46) as [->|Hn]; [reflexivity|];
+          destruct h as [|q|q]; try reflexivity;
+          repeat (destruct q as [q|q|]; try reflexivity);
+          exfalso; apply Hn; reflexivity ].
 Qed.
 
 Lemma digits_ok_inv : forall d, digits_ok d = true ->
@@ -941,14 +942,14 @@ Proof.
       by (rewrite app_length; lia).
     rewrite nt_skip_sep by assumption.
     rewrite nt_tail by assumption.
-    cbn [is_eof t_kind c_pos]. change (tok_eqb TEOF TEOF) with true. cbn [andb].
+    unfold is_eof. cbn [t_kind c_pos]. change (tok_eqb TEOF TEOF) with true. cbn [andb].
     replace (length (pre ++ sep_text sp ++ tail_text tail) <=? length pre + length (sep_text sp) + length (tail_text tail))
       with true by (symmetry; apply Nat.leb_le; rewrite !app_length; lia).
     f_equal. f_equal. rewrite !app_length. lia.
   - destruct sls as [|sl sls]; [discriminate Hsl|].
     cbn [forallb] in Hok. cbn [slots_ok] in Hsl. cbn [separating_slots] in Hsep. bsplit.
     rename H4 into Htk, H0 into Hoks, H3 into Hinner, H5 into Hafter, H2 into Hsls, H into Hgap, H1 into Hseps.
-    cbn [render_slots].
+    cbn [render_slots]. rewrite <- !app_assoc.
     set (follow := sep_text (s_after sl) ++ render_slots ts sls ++ tail_text tail).
     set (txt := tk_text t (s_inner sl)).
     assert (Hright : right_ok t follow).
@@ -965,7 +966,7 @@ Proof.
       by (rewrite <- app_assoc; reflexivity).
     replace (length pre + length (sep_text sp)) with (length (pre ++ sep_text sp)) by (rewrite app_length; reflexivity).
     unfold txt. rewrite nt_tk by assumption. fold txt.
-    unfold expect_tk, expect. cbn [is_eof t_kind]. rewrite tk_not_eof by assumption. cbn [andb].
+    unfold expect_tk, expect. unfold is_eof. cbn [t_kind]. rewrite tk_not_eof by assumption. cbn [andb].
     destruct (IH sls (s_after sl) ((pre ++ sep_text sp) ++ txt) fuel v tail) as (toks & Hl & Hm); try assumption; [lia|].
     fold follow in Hl.
     replace (length (pre ++ sep_text sp) + length txt) with (length ((pre ++ sep_text sp) ++ txt))
